@@ -48,7 +48,7 @@ def run(ctx):
     cfgs = singles + pairs
     reqs_of = lambda g: [CATALOGUE[i - 1] if i else sl.IDLE for i in g]
     mod = sl.mc_module("MCService", CATALOGUE, cfgs, emit_serial=True, emit_cases=True)
-    r = ctx.tlc("MCService", cfg_text=sl.mc_cfg(2, history=False, invariants=("RespSound", "LockInv", "ApplyExclusive")),
+    r = sl.tlc(ctx, "MCService", cfg_text=sl.mc_cfg(2, history=False, invariants=("RespSound", "LockInv", "ApplyExclusive")),
                 files={"MCService.tla": mod}, timeout=800)
     case_lines = r.lines.get("CASE", [])
     serial_lines = r.lines.get("SERIAL", [])
